@@ -162,6 +162,7 @@ def main():
     ap.add_argument("--lanes", type=int, default=4)
     ap.add_argument("--out", default="/verif/work/mutcamp")
     ap.add_argument("--files", default="")
+    ap.add_argument("--checks-file", default="", help="JSON {mutant id: [checks]} overriding the checks of single mutants (patches mode)")
     ap.add_argument("--patches", default="", help="directory with <PROP>/m*.diff (hand-written faulty variants): each is run against the check of <PROP>")
     ap.add_argument("--verif", default="/verif", help="tree whose bin/vcheck is used (a snapshot keeps a long campaign independent of edits)")
     ap.add_argument("--skip-done", default="", help="results.jsonl whose mutant ids are not run again")
@@ -183,6 +184,9 @@ def main():
             for f in sorted(glob.glob(os.path.join(d, "m*.diff"))):
                 todo.append({"id": "%s/%s" % (prop, os.path.basename(f)[:-5]), "file": "-", "line": 0, "op": "patch", "before": "",
                              "after": "", "patch": f, "checks": [prop]})
+        if a.checks_file:
+            over = json.load(open(a.checks_file))
+            todo = [dict(m, checks=over[m["id"]]) for m in todo if m["id"] in over]
     if a.rerun:
         files = []
         for l in open(a.rerun):
